@@ -42,7 +42,11 @@ pub type DaemonFuture = Pin<Box<dyn Future<Output = ()>>>;
 
 /// Drive `fut` until `stop` says so (evaluated after every poll), the virtual-time `limit` is
 /// reached, or nothing can make progress any more.
-pub fn drive(fut: &mut DaemonFuture, stop: &mut dyn FnMut(&world::World) -> Option<String>, limit: Option<u128>) -> Outcome {
+pub fn drive(
+	fut: &mut DaemonFuture,
+	stop: &mut dyn FnMut(&world::World) -> Option<String>,
+	limit: Option<u128>,
+) -> Outcome {
 	// one root waker per thread, shared by all drives: FuturesUnordered remembers the waker of its
 	// last poll, and a timer armed during an earlier drive must still reach the current loop
 	let root = ROOT.with(|r| r.clone());
@@ -57,7 +61,14 @@ pub fn drive(fut: &mut DaemonFuture, stop: &mut dyn FnMut(&world::World) -> Opti
 			if let Poll::Ready(()) = fut.as_mut().poll(&mut cx) {
 				return Outcome::Finished;
 			}
-			let (crash, cap, mono, seq) = world::with(|w| (w.crash_now, w.seq > w.plan.sched.max_events, w.mono, w.seq + w.timer_seq));
+			let (crash, cap, mono, seq) = world::with(|w| {
+				(
+					w.crash_now,
+					w.seq > w.plan.sched.max_events,
+					w.mono,
+					w.seq + w.timer_seq,
+				)
+			});
 			let spinning = if seq == last_seq {
 				idle_polls += 1;
 				idle_polls >= 3
@@ -129,6 +140,8 @@ pub fn clear_timers() {
 
 pub fn note_stop(why: &str) {
 	world::with(|w| {
-		w.push(Ev::Stopped { why: why.to_string() });
+		w.push(Ev::Stopped {
+			why: why.to_string(),
+		});
 	});
 }
